@@ -24,7 +24,7 @@ fn build_cfg(tier: Tier, index: u64) -> HistCfg {
     w.is_empty = 0;
     w.put = 40;
     w.del = if index % 5 == 0 { 45 } else { 25 };
-    HistCfg {
+    let mut c = HistCfg {
         kts: Kt::ALL.to_vec(),
         key: KeyProfile::Medium,
         n_keys: if index % 5 == 0 { 1..=5 } else { 1..=60 },
@@ -42,7 +42,13 @@ fn build_cfg(tier: Tier, index: u64) -> HistCfg {
         },
         obs: Obs::default(),
         target_pct: 40,
-    }
+        prelude: Prelude::None,
+        phases: false,
+        special_keys: false,
+        default_table: false,
+    };
+    rare_regions(&mut c, index);
+    c
 }
 
 fn reads_cfg(tier: Tier) -> OpsCfg {
@@ -87,8 +93,8 @@ fn strategy(tier: Tier, index: u64) -> BoxedStrategy<C15Case> {
             let reads = proptest::collection::vec(
                 prop_oneof![
                     12 => op_strategy(&reads_cfg(tier), nk, p0),
-                    1 => proptest::collection::vec(0..nk.max(1) as u16, 0..=30).prop_map(|ks| Op::BulkGet { ks }),
-                    1 => (0..nk.max(1) as u16).prop_map(|k| Op::GetStr { k }),
+                    1 => proptest::collection::vec(0..nk.max(1) as u32, 0..=30).prop_map(|ks| Op::BulkGet { ks }),
+                    1 => (0..nk.max(1) as u32).prop_map(|k| Op::GetStr { k }),
                 ],
                 reads_cfg(tier).n_ops,
             );
